@@ -86,7 +86,14 @@ static bool run_fit(const Problem& p, uint32_t monodim, bool shuffled, bool extr
 	for (size_t k = 0; k < extra; k++) { std::vector<unsigned> id(p.nd); for (int d = 0; d < p.nd; d++) id[d] = (unsigned)rng.below(AX[p.axes[d]].xs.size()); data.insertEntry(1e3 * (double)(k + 1), id.data()); w.push_back(0.0); }
 	std::vector<std::vector<double>> coords, knots; std::vector<uint32_t> ord, pen; std::vector<double> sm;
 	for (int d = 0; d < p.nd; d++) { coords.push_back(AX[p.axes[d]].xs); knots.push_back(AX[p.axes[d]].t); ord.push_back(AX[p.axes[d]].n); data.ranges[d] = (unsigned)AX[p.axes[d]].xs.size(); }
-	if (p.scalar && !capi) { sm = {p.lam[0]}; pen = {(uint32_t)p.pens[0]}; } else { sm = p.lam; for (int v : p.pens) pen.push_back(v); }
+	// argument forms: smoothing and penalty order may each be given once (applies to every dimension) or per dimension, in any
+	// combination; a value is only given once when it is the same in every dimension.  The form rotates with the call count.
+	static long form_counter = 0; long form = form_counter++ % 4;
+	bool lam_same = true, pen_same = true; for (int d = 1; d < p.nd; d++) { lam_same = lam_same && p.lam[d] == p.lam[0]; pen_same = pen_same && p.pens[d] == p.pens[0]; }
+	bool sm_scalar = !capi && lam_same && (p.scalar || form == 2), pen_scalar = !capi && pen_same && (p.scalar || form == 1);
+	if (form == 3 && !p.scalar) sm_scalar = pen_scalar = false;
+	if (sm_scalar) sm = {p.lam[0]}; else sm = p.lam;
+	if (pen_scalar) pen = {(uint32_t)p.pens[0]}; else for (int v : p.pens) pen.push_back(v);
 	Table t;
 	try {
 		if (capi) {
